@@ -589,7 +589,8 @@ pub fn tokens_to_redirections(tokens: &Tokens) -> Result<(Tokens, Vec<Redirectio
 pub fn unquote(text: &str) -> String {
     let mut new_str = String::from(text);
     for &c in ['"', '\''].iter() {
-        if text.starts_with(c) && text.ends_with(c) {
+        // a lone quote character is not a quoted string
+        if text.len() >= 2 && text.starts_with(c) && text.ends_with(c) {
             new_str.remove(0);
             new_str.pop();
             break;
